@@ -9,7 +9,7 @@ TIMEOUT = 240.0
 
 CURVES_PLAIN = ['NIST_P256', 'BSI_P256', 'SM2_P256', 'SECG_K256', 'SM9_P256']
 MLENS = [0, 1, 31, 32, 33, 55, 56, 63, 64, 65, 119, 120, 127, 128, 129]
-RSABITS = [768, 770, 776, 784, 792, 800, 808, 816, 824, 976, 1010, 1017, 1018, 1024]     # every residue of the bit length and of the byte length mod 8
+RSABITS = [768, 769, 770, 776, 777, 784, 792, 800, 801, 808, 816, 824, 976, 1009, 1010, 1017, 1018, 1024]     # every residue of the bit length and of the byte length mod 8
 
 BN_FAULTS = ['flip', 'flip', 'v_zero', 'v_ord', 'v_addord', 'v_negmod', 'v_inc', 'v_neg', 'v_one', 'prefix0', 'v_rand', 'v_big']
 PT_FAULTS = ['flip', 'flip', 'v_inf', 'v_gen', 'v_neg', 'v_dbl', 'v_rand', 'v_offcurve', 'tag', 'trunc1', 'set']
@@ -663,11 +663,11 @@ SCHEMES.update({
     # x-only Schnorr: (e, n - s) under -Q is itself a valid triple
     'ecss': Spec('C05', 4, dict(pk='ec', e='bn', s='bn', msg='bytes'), o_ecss, extra_faults=[('forge', 'v_forgeinf')]),
     'rsasig': Spec('C05', 3, dict(sig='bytes', msg='bytes'), o_rsasig, rsa=True, opts=hopts,
-                   extra_faults=[('sig', 'v_addmod'), ('sig', 'prefix0'), ('sig', 'v_encflip'), ('sig', 'v_encflip'), ('sig', 'v_encflip')]),
+                   extra_faults=[('sig', 'v_addmod'), ('sig', 'prefix0'), ('sig', 'strip0'), ('sig', 'strip0'), ('sig', 'v_encflip'), ('sig', 'v_encflip'), ('sig', 'v_encflip')]),
     'bls': Spec('C05', 4, dict(pk='g2', sig='g1', msg='bytes'), o_bls, pc=True),
     'rsaenc': Spec('C06', 3, dict(ct='bytes'), o_rsaenc, rsa=True,
                    opts=lambda rng: dict(mlen=rng.choice([1, 2, 10, 29, 30, 31, 60, 61, 62, 63, 85, 117, 0, 200])),
-                   extra_faults=[('ct', 'v_encflip')]),
+                   extra_faults=[('ct', 'v_encflip'), ('ct', 'strip0')]),
     'ecdh': Spec('C06', 5, dict(qa='ec', qb='ec'), o_ecdh, opts=lambda rng: dict(klen=rng.choice([16, 32, 33, 64, 1]))),
     'ecmqv': Spec('C06', 5, dict(qa1='ec', qa2='ec', qb1='ec', qb2='ec'), o_ecmqv,
                   opts=lambda rng: dict(klen=rng.choice([16, 32, 48]))),
